@@ -14,7 +14,7 @@ from contracts.c90_doc import BOUND, doc_inputs, lines_of, expected_lines, kern_
 
 
 # ================================================================================================================ C12
-GARBAGE = ['4zz', 'zz', '4c&&&', '4cR', '4c4c%', '=1x%', '*clefQ9', 'c4@', '@', '4%', '8..', '%%', '4c##x#', 'Ñ', '4c\x7f']
+GARBAGE = ['4d@x', '2a@x', '4zz', 'zz', '4c&&&', '4cR', '4c4c%', '=1x%', '*clefQ9', 'c4@', '@', '4%', '8..', '%%', '4c##x#', 'Ñ', '4c\x7f']
 
 
 @contract(None, props=['C12'], bounded=BOUND + '; 1..3 cells replaced by malformed text (unknown characters, wrong order, truncated, valid + garbage)')
@@ -26,7 +26,15 @@ class malformed_cells_isolated:
         slots = [(ri, c.col) for ri, r in enumerate(score.rows) if r.kind == 'data' for c in r.cells
                  if score.headers[c.spine] == '**kern' and c.kind != 'null']
         picks = rng.sample(slots, min(len(slots), rng.choice([1, 1, 2, 3]))) if slots else []
-        return {'score': score, 'damage': {p: rng.choice(GARBAGE) for p in picks}, 'blank_lines': rng.random() < 0.3}
+        damage = {p: rng.choice(GARBAGE) for p in picks}
+        if picks and rng.random() < 0.4:
+            # the same malformed text in every kern cell of one line (and once more elsewhere): equal cells are still separate cells
+            same = rng.choice(GARBAGE)
+            for p in slots:
+                if p[0] == picks[0][0]:
+                    damage[p] = same
+            damage[picks[-1]] = same
+        return {'score': score, 'damage': damage, 'blank_lines': rng.random() < 0.3}
 
     def requires(damage):
         return len(damage) > 0
